@@ -109,6 +109,11 @@ def _edit(kind):
             E.eq(E.method(new, "get_args"), UVal(pu, "tuple")), E.eq(E.method(new, "get_gen_fn"), gf),
             sites.has == f6("edit_sites_dom", AB), sites.val == f6("edit_sites", AU),
             E.eq(w, SReal(f6("edit_sites_weight", z3.RealSort())))))
+        # the change tags the incremental run of the program computed are what is returned: a NoChange tag on the returned
+        # retdiff must come from the program run (which is sound by C09), never from wholesale re-tagging
+        prog_rd = SL.prog_retdiff(st, pu, tu, sites.has, sites.val)
+        E.prove(f"C08.StaticGenerativeFunction.edit_{kind}.returned_tags_are_the_program_run_tags",
+                E.Implies(T.all_nochange(rd), T.d_nc_all(prog_rd)))
         E.prove(f"C08.StaticGenerativeFunction.edit_{kind}.retdiff_primal_is_new_retval",
                 E.eq(E.call(INC + ":Diff.tree_primal", rd), E.method(new, "get_retval")))
         E.prove(f"C01.StaticGenerativeFunction.edit_{kind}.retval_is_program_retval_on_new_args",
